@@ -203,9 +203,10 @@ def declare_crypto(E):
     E.contract("EncCtx.encrypt", argnames=["self", "iv", "data", "aad"], returns="bytes",
                cases=[dict(name="gcm", when="True", result="gcm(opaque_id(self), iv, data, aad)")])
     E.contract("DecCtx.update", argnames=["self", "data"], returns=_dec_update,
-               ghost={"dec_pos": "ghost('dec_pos') + len(data)"})
+               ghost={"dec_pos": "ghost('dec_pos') + len(data)", "dec_calls": "ghost('dec_calls') + 1", "dec_in": "data",
+                      "dec_out": "result"})
     E.contract("DecCtx.decrypt", argnames=["self", "iv", "data", "aad"], returns=_gcm_decrypt,
-               ghost={"gcm_calls": "ghost('gcm_calls') + 1", "gcm_iv": "iv", "gcm_data": "data", "gcm_aad": "aad"},
+               ghost={"gcm_calls": "ghost('gcm_calls') + 1", "gcm_iv": "iv", "gcm_data": "data", "gcm_aad": "aad", "gcm_out": "result"},
                # ideal AEAD: InvalidTag on anything but the peer's own output for this nonce and associated data
                raises={"InvalidTag": "data != gcm(ghost('peer_enc'), iv, ghost('rx_packet')[4:], aad)"})
     E.opaque_contracts["ZComp"] = dict(argnames=["self", "data"], returns=_compress,
@@ -215,7 +216,11 @@ def declare_crypto(E):
                                          raises={"zlib.error": "data != zspec(ghost('peer_z'), ghost('u_count'), ghost('rx_plain'))"})
     E.contract("paramiko.packet.compute_hmac", params={"key": "bytes", "message": "bytes", "digest_class": "opaque:HashCtor"},
                returns="bytes",
-               cases=[dict(name="hmac", when="True", result="hmac_spec(key, message, opaque_id(digest_class))")], modifies=[])
+               cases=[dict(name="hmac", when="True", result="hmac_spec(key, message, opaque_id(digest_class))")],
+               ghost={"hm_calls": "ghost('hm_calls') + 1", "hm_msg": "message", "hm_key": "key", "hm_eng": "opaque_id(digest_class)"},
+               modifies=[])
+    E.declare_ghost(hm_calls="int", hm_msg="bytes", hm_key="bytes", hm_eng="int", dec_calls="int", dec_in="bytes", dec_out="bytes",
+                    gcm_out="bytes")
     E.contract("paramiko.util.format_binary", returns="opaque:Lines", modifies=[])
 
 
@@ -464,3 +469,68 @@ def lemma_contract(mode, bs, compress):
                                       argnames=["m"], returns="none",
                                       ghost={"rx": "ghost('tx')", "rx_packet": "ghost('last_packet')", "rx_rest": "b''",
                                              "rx_plain": "m.packet.getvalue()"})}})
+
+
+
+# ------------------------------------------------------------------------------------------------ C02: arbitrary input
+def read_contract_c02(mode, bs):
+    """read_message on an ARBITRARY incoming stream (whatever an attacker made of it): a message is delivered only after
+    the integrity check of exactly the bytes it is cut from has passed"""
+    f = F
+    HMSG = "ghost('hm_msg')"
+    size = "unpack32(%s[4:8])" % HMSG
+    CONS = "old(ghost('rx'))[:len(old(ghost('rx'))) - len(ghost('rx'))]"
+    req = {
+        "mode": MODE_REQ[mode] % dict(f=f, d="in"),
+        "block_size": "%sblock_size_in == %d" % (f, bs),
+        "mac_parameters": ("%smac_size_in == 16" % f) if mode == "aead" else
+                          ("notnone(%smac_engine_in) and notnone(%smac_key_in) and 0 < %smac_size_in"
+                           " and %smac_size_in <= fn('digest_size', 'int', opaque_id(%smac_engine_in))" % (f, f, f, f, f)),
+        "aead_nonce": ("notnone(%siv_in) and len(%siv_in) == 12" % (f, f)) if mode == "aead" else "True",
+        "compression": "isnone(%scompress_engine_in)" % f,
+        "nothing_over_read": "len(%sremainder) == 0" % f,
+    }
+    ens = {}
+    if mode in ("classic", "etm"):
+        ens["mac_compared_exactly_once_and_found_equal"] = (
+            "ghost('cteq_calls') == old(ghost('cteq_calls')) + 1 and ghost('cteq_result')"
+            " and ghost('hm_calls') == old(ghost('hm_calls')) + 1")
+        ens["computed_with_this_directions_key_over_sequence_number_length_and_packet"] = (
+            "ghost('cteq_a') == hmac_spec(old(%smac_key_in), %s, opaque_id(old(%smac_engine_in)))[:%smac_size_in]"
+            " and %s[0:4] == pack32(old(%ssequence_number_in))%s" % (f, HMSG, f, f, HMSG, f,
+                                                                     (" and len(%s) == 8 + %s" % (HMSG, size)) if mode == "classic" else ""))
+        ens["compared_with_the_bytes_that_followed_the_packet_on_the_wire"] = (
+            "len(%s) == len(%s) - 4 + %smac_size_in and ghost('cteq_b') == (%s)[len(%s) - 4:]" % (CONS, HMSG, f, CONS, HMSG))
+    if mode == "classic":
+        # RFC 4253 section 6: payload = packet[1 : packet_length - padding_length], packet = the MACed bytes after the
+        # sequence number and length; message type = payload[0], body = payload[1:]
+        PAYLOAD = "%s[8:][1:%s - %s[8:][0]]" % (HMSG, size, HMSG)
+        ens["delivered_type_is_cut_from_the_authenticated_plaintext"] = "result[0] == %s[0]" % PAYLOAD
+        ens["delivered_body_is_cut_from_the_authenticated_plaintext"] = "result[1].packet.getvalue() == %s[1:]" % PAYLOAD
+    if mode == "etm":
+        ens["authenticated_bytes_are_the_length_field_and_ciphertext_on_the_wire"] = "%s[4:] == (%s)[0:len(%s) - 4]" % (HMSG, CONS, HMSG)
+        ens["delivered_message_is_cut_from_the_decryption_of_the_authenticated_ciphertext"] = (
+            "ghost('dec_calls') == old(ghost('dec_calls')) + 1 and ghost('dec_in') == %s[8:]"
+            " and result[0] == ghost('dec_out')[1:%s - ghost('dec_out')[0]][0]"
+            " and result[1].packet.getvalue() == ghost('dec_out')[1:%s - ghost('dec_out')[0]][1:]"
+            % (HMSG, size, size))
+    if mode == "aead":
+        AAD = "ghost('gcm_aad')"
+        ens["tag_verified_exactly_once_under_this_directions_nonce"] = (
+            "ghost('gcm_calls') == old(ghost('gcm_calls')) + 1 and ghost('gcm_iv') == old(%siv_in)" % f)
+        ens["over_exactly_the_bytes_on_the_wire"] = (
+            "len(%s) == 4 and %s + ghost('gcm_data') == %s" % (AAD, AAD, CONS))
+        ens["delivered_message_is_cut_from_the_authenticated_plaintext"] = (
+            "result[0] == ghost('gcm_out')[1:unpack32(%s) - ghost('gcm_out')[0]][0]"
+            " and result[1].packet.getvalue() == ghost('gcm_out')[1:unpack32(%s) - ghost('gcm_out')[0]][1:]" % (AAD, AAD))
+    raises = {"EOFError": "True", "OSError": "True", "Exception": "True", "NeedRekeyException": "True", "SSHException": "True",
+              # a packet that passed the integrity check but is shorter than its own padding: IndexError escapes (that is
+              # C38's concern; nothing is delivered)
+              "IndexError": "True"}
+    if mode == "aead":
+        raises["OverflowError"] = "True"
+        raises["InvalidTag"] = "True"
+    return dict(params={}, requires=req, ensures=ens, returns="tuple[int,obj:Message]", raises=raises, frame_bs=bs)
+
+
+C02_VARIANTS = [("classic", 8), ("classic", 16), ("etm", 8), ("etm", 16), ("aead", 16)]
